@@ -58,6 +58,21 @@ def standin_simulate_grid(tier, seed):
     violations, evals, distinct, samples = [], 0, set(), []
     models = [fitted_model("logistic", seed=seed, source_dimension=1, obs_models="gaussian-diagonal", dimension=3),
               fitted_model("logistic", seed=seed + 1, source_dimension=0, obs_models="gaussian-scalar", dimension=3)]
+    # ... and the same two models as a user gets them back from a file (a saved scalar noise level comes back with shape (1,), the
+    # fitted one is 0-d: both are valid models of the same kind)
+    import os
+    import shutil
+    import tempfile
+    from leaspy.models import BaseModel
+    tmpd = tempfile.mkdtemp(prefix="c18_")
+    try:
+        reloaded = []
+        for q, (m_, d_) in enumerate(models):
+            pth = os.path.join(tmpd, f"m{q}.json")
+            m_.save(pth)
+            reloaded.append((BaseModel.load(pth), d_))
+    finally:
+        shutil.rmtree(tmpd, ignore_errors=True)
     feats = ["f0", "f1", "f2"]
     grid = list(itertools.product([1, 4], [0.5, 2.0], [0.0, 0.3], ["absent", 0, 0.0005, 0.01, 0.1, 1]))
     if tier == "quick":
@@ -93,11 +108,26 @@ def standin_simulate_grid(tier, seed):
         # ages far outside the fitted range: the logistic curves saturate at 0 / 1 (valid designs all the same)
         "extreme_ages": pd.DataFrame({"ID": ["a", "a", "a", "b", "b"], "TIME": [150.0, 300.0, 400.0, 1.0, 20.0]}),
     }
-    for (m, _), (tn, tab) in itertools.product(models, tables.items()):
+    for q_, (m, _) in enumerate(reloaded):
+        if violations:
+            break
+        vp = dict(visit_type="random", patient_number=3, first_visit_mean=0.0, first_visit_std=0.4, time_follow_up_mean=4.0, time_follow_up_std=1.0,
+                  distance_visit_mean=1.0, distance_visit_std=0.2)
+        key = f"random design {vp} seed={seed} on a model re-loaded from its file (noise_std of shape {tuple(m.parameters['noise_std'].shape)})"
+        try:
+            with quiet():
+                res = m.simulate(algorithm="simulate", features=feats, visit_parameters=dict(vp), seed=seed)
+        except Exception as e:
+            violations.append(dict(key=f"{key}: an accepted design did not run to completion: {type(e).__name__}: {str(e)[:120]}"))
+            break
+        evals += 1
+        distinct.add(("reloaded", q_))
+        check_result(res, feats, range(3), key, violations, step=documented_step("absent"))
+    for (m, _), (tn, tab) in itertools.product(models + reloaded, tables.items()):
         if violations:
             break
         before = tab.copy(deep=True)
-        key = f"table design {tn}"
+        key = f"table design {tn}" + (" on a re-loaded model" if any(m is r_[0] for r_ in reloaded) else "")
         try:
             with quiet():
                 res = m.simulate(algorithm="simulate", features=feats, visit_parameters=dict(visit_type="dataframe", df_visits=tab), seed=seed)
@@ -112,7 +142,7 @@ def standin_simulate_grid(tier, seed):
     return dict(evaluations=evals, distinct_nontrivial=len(distinct),
                 rule="one evaluation = one complete simulate() run on a real fitted logistic model; distinct = design x seed",
                 samples=samples, violations=violations[:60],
-                bound=dict(space="design grid x seeds x 2 fitted logistic models + 5 visit tables (one with saturating ages)", designs=len(grid),
+                bound=dict(space="design grid x seeds x 2 fitted logistic models + 5 visit tables (one with saturating ages), tables and one design also on the 2 models re-loaded from their files", designs=len(grid),
                            seeds=len(seeds), exhaustive=False, seed=seed))
 
 
